@@ -115,10 +115,16 @@ def run(prop, tier, seed, replay=None):
             [["put", "a", "sumMix"], ["put", "b", "esc"], ["put", "c", "jan"]] + [["query", "noSum"]] * 3 +
             [["query", "sumEsc"]] * 3 + [["query", "locEsc"]] * 3 + [["put", "d", "sumMix"], ["delete", "a"]] +
             [["query", "noSum"], ["query", "sumEsc"], ["query", "fA"]],
+            # a read that transforms what it returns (expansion of recurrences) between queries
+            # that look at what the expansion removes
+            [["put", "a", "weekly"], ["put", "b", "jan"], ["query", "hasRrule"], ["query", "noRrule"], ["expand"]] +
+            [["query", "hasRrule"]] * 4 + [["query", "noRrule"]] * 4 + [["expand"], ["put", "c", "weekly"]] +
+            [["query", "hasRrule"], ["query", "noRrule"], ["query", "tJan"]],
         ]
         for ops in DIRECTED:
             for level, store, th in (("store", "tree", 0), ("store", "tree", 1), ("store", "mem", 2),
-                                     ("store", "vdir", 1), ("store", "bare", 0), ("http", "tree", 1)):
+                                     ("store", "vdir", 1), ("store", "bare", 0), ("http", "tree", 1),
+                                     ("http", "tree", 0), ("http", "tree", None)):
                 jobs.append({"kind": "ops", "level": level, "store": store, "threshold": th, "ops": ops})
         # the witness history of every listed (open) finding, re-run as recorded
         for d, e in sorted(devs.items()):
